@@ -172,6 +172,19 @@ class Computator:
 
             page_layout = self.page_parser.process_page(image, page_layout)
 
+            # line crops go first: the outputs below mark the page as processed for --skip-processed
+            if self.output_line_path is not None and page_layout is not None:
+                if 'lmdb' in self.output_line_path:
+                    lmdb_writer = LMDB_writer(self.output_line_path)
+                    lmdb_writer(page_layout, file_id)
+                else:
+                    for region in page_layout.regions:
+                        for line in region.lines:
+                            cv2.imwrite(
+                                os.path.join(self.output_line_path, f'{file_id}-{line.id}.jpg'),
+                                line.crop.astype(np.uint8),
+                                [int(cv2.IMWRITE_JPEG_QUALITY), 98])
+
             if self.output_xml_path is not None:
                 page_layout.to_pagexml(
                     os.path.join(self.output_xml_path, file_id + '.xml'))
@@ -185,18 +198,6 @@ class Computator:
 
             if self.output_alto_path is not None:
                 page_layout.to_altoxml(os.path.join(self.output_alto_path, file_id + '.xml'))
-
-            if self.output_line_path is not None and page_layout is not None:
-                if 'lmdb' in self.output_line_path:
-                    lmdb_writer = LMDB_writer(self.output_line_path)
-                    lmdb_writer(page_layout, file_id)
-                else:
-                    for region in page_layout.regions:
-                        for line in region.lines:
-                            cv2.imwrite(
-                                os.path.join(self.output_line_path, f'{file_id}-{line.id}.jpg'),
-                                line.crop.astype(np.uint8),
-                                [int(cv2.IMWRITE_JPEG_QUALITY), 98])
 
             all_lines = list(page_layout.lines_iterator())
             all_lines = sorted(all_lines, key=lambda x: x.id)
@@ -315,7 +316,7 @@ def main():
         # Files already processed are skipped. File is considered as already processed when file with appropriate
         # extension is found in all required output directories. If any of the output paths is set to 'None'
         # (i.e. the output is not required) than this directory is omitted.
-        already_processed_files = load_already_processed_files([output_xml_path, output_logit_path, output_render_path])
+        already_processed_files = load_already_processed_files([output_xml_path, output_logit_path, output_render_path, output_alto_path])
         if len(already_processed_files) > 0:
             logger.info(f"Already processed {len(already_processed_files)} file(s).")
 
